@@ -45,19 +45,26 @@ Proof. induction items as [|it items IH]; intros v; cbn; auto. rewrite IH. refle
 
 Definition noall (z : thr) : Prop := lb_all (th_lab z) = [].
 
-Lemma iter_plain_facts : forall x e (body : body_t) pt es j z,
-  (forall c e' z', noall z' -> noall (snd (body c e' z'))) -> noall z ->
+(* label state between traversals: no rank matches, and the label counters of the ranks of
+   level i and deeper are 0 (endIter resets them) *)
+Definition cz (ls : lab) (r : Z) : Prop :=
+  lookup_rm r (lb_cnt ls) = None \/ lookup_rm r (lb_cnt ls) = Some 0.
+Definition labinv (i : nat) (z : thr) : Prop :=
+  noall z /\ forall j, (i <= j)%nat -> cz (th_lab z) (Z.of_nat j).
+
+Lemma iter_plain_facts : forall (Q : thr -> Prop) x e (body : body_t) pt es j z,
+  (forall c e' z', Q z' -> Q (snd (body c e' z'))) -> Q z ->
   let items := fst (iter_plain true x e body es j z) in
-  Forall (fun it => it_pre it = [] /\ it_post it = [] /\ noall (it_zin it)
+  Forall (fun it => it_pre it = [] /\ it_post it = [] /\ Q (it_zin it)
                     /\ (exists t, In (it_c it, t) es /\ it_env it = set_nth x t e)
                     /\ it_body it = fst (body (it_c it) (it_env it) (it_zin it))) items
   /\ children pt items = map (fun ct => (pt ++ [fst ct], set_nth x (snd ct) e)) (offered es)
   /\ map (fun it => pt ++ [it_c it; it_j it]) items
      = flat_map (fun jc : Z * (Z * tree) => if is_empty 0 (snd (snd jc)) then []
                             else [addr pt (fst (snd jc)) (Some (fst jc))]) (enumZ es j)
-  /\ noall (snd (iter_plain true x e body es j z)).
+  /\ Q (snd (iter_plain true x e body es j z)).
 Proof.
-  intros x e body pt es j z Hb. revert j z. induction es as [|[c t] es IH]; intros j z Hz.
+  intros Q x e body pt es j z Hb. revert j z. induction es as [|[c t] es IH]; intros j z Hz.
   - cbn. repeat split; auto.
   - cbn [iter_plain enumZ flat_map fst snd andb]. unfold offered, present. cbn [filter snd].
     destruct (is_empty 0 t) eqn:E; cbn [negb].
@@ -80,31 +87,59 @@ Definition plain_level (L : level) : bool :=
   && match l_src L with SFib _ => true | SAnd _ _ => false end
   && match l_proj L with None => true | Some _ => false end.
 
-Lemma lab_reg_noall : forall ls r, lb_all ls = [] ->
-  fst (lab_reg ls r) = [] /\ lb_all (snd (lab_reg ls r)) = [].
+Lemma lookup_cnt_set : forall q r v m,
+  lookup_rm q (cnt_set r v m) = if q =? r then Some v else lookup_rm q m.
 Proof.
-  intros ls r H. unfold lab_reg. destruct (memZ r (lb_reg ls)); cbn; auto.
-  rewrite H. cbn. auto.
+  intros q r v m. induction m as [|[r' v'] m IH]; cbn.
+  - destruct (q =? r); reflexivity.
+  - destruct (r =? r') eqn:E; cbn.
+    + apply Z.eqb_eq in E. subst r'. destruct (q =? r); reflexivity.
+    + rewrite IH. destruct (q =? r') eqn:E2; destruct (q =? r) eqn:E3; auto. lia.
+Qed.
+
+Lemma memZ_app : forall r l, memZ r (l ++ [r]) = true.
+Proof. intros. unfold memZ. rewrite existsb_app. cbn. rewrite Z.eqb_refl, orb_true_r. reflexivity. Qed.
+
+Lemma lab_reg_inv : forall i z, labinv i z ->
+  let ls1 := snd (lab_reg (th_lab z) (Z.of_nat i)) in
+  fst (lab_reg (th_lab z) (Z.of_nat i)) = []
+  /\ labinv (S i) (with_lab z ls1) /\ memZ (Z.of_nat i) (lb_reg ls1) = true /\ cz ls1 (Z.of_nat i)
+  /\ lb_all ls1 = [].
+Proof.
+  intros i z [Hn Hc]. unfold lab_reg. destruct (memZ (Z.of_nat i) (lb_reg (th_lab z))) eqn:E; cbn [fst snd].
+  - split; [reflexivity|]. split; [split; [exact Hn|intros j Hj; apply Hc; lia]|].
+    split; [exact E|]. split; [apply Hc; lia|exact Hn].
+  - unfold noall in Hn. rewrite Hn. cbn [partners flat_map fold_left]. repeat split; auto.
+    + intros j Hj. unfold cz. cbn [with_lab th_lab lb_cnt]. rewrite lookup_cnt_set.
+      destruct (Z.of_nat j =? Z.of_nat i) eqn:E2; [lia|]. apply Hc. lia.
+    + cbn [lb_reg]. apply memZ_app.
+    + unfold cz. cbn [lb_cnt]. rewrite lookup_cnt_set, Z.eqb_refl. auto.
+Qed.
+
+Lemma lab_end_inv : forall i z', labinv (S i) z' ->
+  labinv i (with_lab z' (lab_end (th_lab z') (Z.of_nat i))).
+Proof.
+  intros i z' [Hn Hc]. split; [exact Hn|]. intros j Hj. unfold cz. cbn [with_lab th_lab lab_end lb_cnt].
+  rewrite lookup_cnt_set. destruct (Z.of_nat j =? Z.of_nat i) eqn:E; auto. apply Hc. lia.
 Qed.
 
 Lemma plain_level_spec : forall n tr zshape nz i x zu sh lv' pt e z (body : body_t),
-  length pt = i -> noall z ->
-  (forall c e' z', noall z' -> noall (snd (body c e' z'))) ->
-  (forall c t z', noall z' -> In (c, t) (sub e x) ->
-     spec n (S i) lv' (pt ++ [c]) (set_nth x t e) (fst (body c (set_nth x t e) z'))) ->
+  length pt = i -> labinv i z ->
+  (forall c e' z', labinv (S i) z' -> labinv (S i) (snd (body c e' z'))) ->
+  (forall c t z', labinv (S i) z' -> In (c, t) (sub e x) ->
+     spec tr n (S i) lv' (pt ++ [c]) (set_nth x t e) (fst (body c (set_nth x t e) z'))) ->
   let L := {| l_pop := false; l_src := SFib x; l_ufmt := false; l_zufmt := zu; l_proj := None;
               l_shape := sh |} in
-  spec n i (L :: lv') pt e (fst (run_level tr zshape nz i L body e z))
-  /\ noall (snd (run_level tr zshape nz i L body e z)).
+  spec tr n i (L :: lv') pt e (fst (run_level tr zshape nz i L body e z))
+  /\ labinv i (snd (run_level tr zshape nz i L body e z)).
 Proof.
   intros n tr zshape nz i x zu sh lv' pt e z body Lpt Hz Hbn Hbody L.
   unfold run_level. cbn [l_pop l_src l_proj l_ufmt L negb fst snd].
-  destruct (lab_reg_noall (th_lab z) (Z.of_nat i) Hz) as [R1 R2]. rewrite R1.
-  assert (Hz1 : noall (with_lab z (snd (lab_reg (th_lab z) (Z.of_nat i))))) by exact R2.
-  destruct (iter_plain_facts x e body pt (sub e x) 0 _ Hbn Hz1) as (F1 & F2 & F3 & F4).
+  destruct (lab_reg_inv i z Hz) as (R1 & Hz1 & _). rewrite R1.
+  destruct (iter_plain_facts (labinv (S i)) x e body pt (sub e x) 0 _ Hbn Hz1) as (F1 & F2 & F3 & F4).
   set (res := iter_plain true x e body (sub e x) 0 (with_lab z (snd (lab_reg (th_lab z) (Z.of_nat i))))) in *.
   set (items := fst res) in *.
-  split; [|exact F4].
+  split; [|apply lab_end_inv; exact F4].
   assert (Hsimple : Forall (fun it => it_pre it = [] /\ it_post it = []) items).
   { eapply Forall_impl; [|exact F1]. intros it (A & B & _). auto. }
   cbn [reg_events map].
@@ -122,7 +157,7 @@ Proof.
     split.
     + destruct ((K_ITER =? kind) && (0 =? label)) eqn:E; [|reflexivity].
       unfold stampR. assert (kind =? K_ITER = true) as -> by lia. apply chain_enum.
-    + intros Hsc. unfold addr_scope, is_zside in Hsc. unfold expect_at.
+    + intros Hsc. unfold expect_at.
       cbn [l_pop l_src l_proj l_ufmt L andb orb negb].
       destruct (kind =? K_ITER) eqn:EK.
       * rewrite (Z.eqb_sym K_ITER), EK. cbn [andb]. rewrite (Z.eqb_sym 0).
@@ -137,13 +172,13 @@ Qed.
    ranks are registered in order 0,1,2,..., stamps are ordered, and the rows of the iter traces
    are exactly the reference iteration space with storage positions *)
 Theorem plain_nest_spec_gen : forall n tr zshape nz m lv, forallb plain_level lv = true ->
-  forall i pt e z, length pt = i -> noall z ->
-  spec n i lv pt e (fst (run tr zshape nz m lv i pt e z))
-  /\ noall (snd (run tr zshape nz m lv i pt e z)).
+  forall i pt e z, length pt = i -> labinv i z ->
+  spec tr n i lv pt e (fst (run tr zshape nz m lv i pt e z))
+  /\ labinv i (snd (run tr zshape nz m lv i pt e z)).
 Proof.
   intros n tr zshape nz m lv. induction lv as [|L lv IH]; intros Hpl i pt e z Lpt Hz.
   - cbn [run fst snd]. split.
-    2:{ unfold leaf_update, noall in *. destruct (th_z z) as [[v|es]|]; auto.
+    2:{ unfold leaf_update. destruct (th_z z) as [[v|es]|]; auto.
         destruct (skip_pt m pt); auto. }
     intros k P st Hsh. cbv zeta. cbn [dr exec fold_left emits].
     pose proof Hsh as (_ & Hik & _).
@@ -161,9 +196,12 @@ Proof.
 Qed.
 
 Theorem plain_nest_spec : forall n tr zshape nz m lv, forallb plain_level lv = true ->
-  forall i pt e z, length pt = i -> noall z ->
-  spec n i lv pt e (fst (run tr zshape nz m lv i pt e z)).
+  forall i pt e z, length pt = i -> labinv i z ->
+  spec tr n i lv pt e (fst (run tr zshape nz m lv i pt e z)).
 Proof. intros. apply plain_nest_spec_gen; auto. Qed.
+
+Lemma labinv0 : forall z, labinv 0 {| th_z := z; th_lab := lab0 |}.
+Proof. intros z. split; [reflexivity|]. intros j _. left. reflexivity. Qed.
 
 (* read at the top of a collection session: loop_order = 0..d-1 for the d levels entered, and every
    registered trace file = [header if its rank was reached] ++ rows meeting rows_ok *)
@@ -174,12 +212,12 @@ Theorem plain_nest_top : forall n tr zshape nz m lv keys m0 e z,
   let d := dr lv [([], e)] in
   m_lo st' = iota d
   /\ forall kk, In kk keys -> exists data,
-       content st' kk = Some (hdrs kk 0 d ++ data) /\ rows_ok 0 [] lv [] e kk data.
+       content st' kk = Some (hdrs kk 0 d ++ data) /\ rows_ok tr 0 [] lv [] e kk data.
 Proof.
   intros n tr zshape nz m lv keys m0 e z Hpl evs st' d.
   assert (Hsh : shape 0 0 [] [] (init_state keys true m0)).
   { unfold shape. cbn. repeat split; auto. }
-  destruct (plain_nest_spec n tr zshape nz m lv Hpl 0 [] e {| th_z := z; th_lab := lab0 |} eq_refl eq_refl
+  destruct (plain_nest_spec n tr zshape nz m lv Hpl 0 [] e {| th_z := z; th_lab := lab0 |} eq_refl (labinv0 z)
               0%nat [] _ Hsh) as (S1 & _ & E1).
   cbn [Nat.max plus] in S1, E1. fold evs in S1, E1. fold st' in S1. fold d in S1, E1.
   split; [apply S1|]. intros kk Hin. destruct (E1 kk) as (data & Ed & Od). exists data.
